@@ -89,6 +89,20 @@ theorem err?_eq_none (r : IRun K) : r.err? = none ↔ r.result = .ok () := by
   unfold IRun.err?
   cases r.result <;> simp
 
+theorem runSteps_split_pass (A B : List (Step K)) (hB : B.all Step.passes = true) (e : Err)
+    (h : (runSteps (A ++ B)).result = .error e) :
+    (runSteps A).result = .error e ∧ (runSteps (A ++ B)).effects = (runSteps A).effects := by
+  cases hA : (runSteps A).result with
+  | ok u =>
+    have := (runSteps_append_ok A B hA).2
+    rw [this, runSteps_all_pass B hB] at h
+    cases h
+  | error e' =>
+    have := runSteps_append_err A B e' hA
+    rw [this.2] at h
+    cases h
+    exact ⟨rfl, this.1⟩
+
 def allChecks (s : List (Step K)) : Bool := s.all (fun st => !st.isEff)
 
 theorem noLateFault_checks_append (a b : List (Step K)) (h : allChecks a = true) :
